@@ -283,7 +283,7 @@ func genAKAHistory(r *kernel.Rand, maxOps int) map[string]interface{} {
 		he = incBytes(he, uint64(r.Intn(1000)))
 	}
 	h := map[string]interface{}{"k": hex.EncodeToString(boundary128(r)), "op": hex.EncodeToString(boundary128(r)), "amf": hex.EncodeToString(r.Bytes(2)),
-		"sqn_he": hex.EncodeToString(he), "sqn_ue": hex.EncodeToString(ue)}
+		"sqn_he": hex.EncodeToString(he), "sqn_ue": hex.EncodeToString(ue), "reuse": r.Sub("reuse").Bool()}
 	var ops []interface{}
 	n := r.Range(1, maxOps)
 	for i := 0; i < n; i++ {
